@@ -37,6 +37,9 @@ pub enum Layout {
     Sequential,
     /// pixel i = pool[mix(i, salt) % pool.len()] (fixed integer hash of the pixel number)
     Hashed(u32),
+    /// every pixel is pool[0] except that pool[k+1] occupies the single pixel
+    /// `positions[k] % area` (rare colours: a sampler that skips pixels loses them)
+    Rare(Vec<u32>),
 }
 
 #[derive(Clone, Debug, Serialize, Deserialize)]
@@ -133,6 +136,13 @@ impl ImageCase {
             Layout::Indexed(idx) if !idx.is_empty() => self.pool[idx[i % idx.len()] as usize % n],
             Layout::Indexed(_) | Layout::Sequential => self.pool[i % n],
             Layout::Hashed(salt) => self.pool[(mix(i as u64, *salt) % n as u64) as usize],
+            Layout::Rare(positions) => {
+                let area = (self.w * self.h).max(1);
+                match positions.iter().take(n.saturating_sub(1)).position(|p| *p as usize % area == i) {
+                    Some(k) => self.pool[k + 1],
+                    None => self.pool[0],
+                }
+            }
         }
     }
 }
@@ -657,6 +667,12 @@ fn dims_strategy(p: usize, tier: Tier) -> BoxedStrategy<(usize, usize)> {
         let h0 = (t / w).max(1);
         (w, (h0 + dh).saturating_sub(1).max(1))
     });
+    // strictly inside the window where a sampler with half the threshold would already skip
+    // pixels: 100*p <= area < 200*p (the library must still look at every pixel here)
+    let window = (wmin..=wmax, any::<u16>()).prop_map(move |(w, f)| {
+        let target = 100 * p + ((f as usize * 100 * p) >> 16);
+        (w, (target / w).max(1))
+    });
     let big_weight = match (tier, t > 4096) {
         (_, false) => 2,
         (Tier::Quick, true) => if t > 60_000 { 0 } else { 1 },
@@ -665,9 +681,9 @@ fn dims_strategy(p: usize, tier: Tier) -> BoxedStrategy<(usize, usize)> {
     if big_weight == 0 {
         small.boxed()
     } else if t > 4096 {
-        prop_oneof![40 => small, big_weight => boundary].boxed()
+        prop_oneof![40 => small, big_weight => boundary, big_weight => window].boxed()
     } else {
-        prop_oneof![8 => small, big_weight => boundary].boxed()
+        prop_oneof![8 => small, big_weight => boundary, big_weight => window].boxed()
     }
 }
 
@@ -691,17 +707,20 @@ fn image_strategy(tier: Tier) -> BoxedStrategy<ImageCase> {
         })
         .prop_flat_map(|((p, w, h), pool_len)| {
             let area = w * h;
+            let rare = vec(any::<u32>(), pool_len.saturating_sub(1).min(64)).prop_map(Layout::Rare);
             let layout = if area <= 4096 {
                 prop_oneof![
                     5 => vec(0u16..(pool_len as u16).max(1), area).prop_map(Layout::Indexed),
                     2 => Just(Layout::Sequential),
                     1 => any::<u32>().prop_map(Layout::Hashed),
+                    3 => rare,
                 ]
                 .boxed()
             } else {
                 prop_oneof![
                     1 => Just(Layout::Sequential),
                     3 => any::<u32>().prop_map(Layout::Hashed),
+                    2 => rare,
                 ]
                 .boxed()
             };
